@@ -14,7 +14,12 @@ RT = 1e-13
 def close(a, b, rtol=RT):
     a = np.asarray(a, float)
     b = np.asarray(b, float)
-    return bool(np.all(np.abs(a - b) <= rtol * np.maximum(np.abs(a), np.abs(b))))
+    if a.shape != b.shape:
+        a, b = np.broadcast_arrays(a, b)
+    fin = np.isfinite(a) & np.isfinite(b)
+    if not np.array_equal(a[~fin], b[~fin], equal_nan=True):
+        return False  # a non-finite value only matches the identical non-finite value
+    return bool(np.all(np.abs(a[fin] - b[fin]) <= rtol * np.maximum(np.abs(a[fin]), np.abs(b[fin]))))
 
 
 _log = st.floats(-15, 15, allow_nan=False, width=64)
